@@ -50,7 +50,9 @@ GoDocs == <<
   Outer(In2, GPtr("Inner", In1), <<In2>>, <<GNil("Inner")>>, <<Half>>, <<S(cEmpty)>>, TRUE, S(cEacute)),
   GPtr("Outer", Outer(In1, GPtr("Inner", In1), <<In3, In1>>, <<GPtr("Inner", In2), GPtr("Inner", In2)>>, <<I(2), I(2)>>, <<S(cA)>>, FALSE, S(cA))),
   GSlice("Inner", <<In1, In2>>), GSlice("*Inner", <<GPtr("Inner", In1), GNil("Inner")>>), GSlice("float64", <<I(1), I(2), I(3)>>), GSlice("string", <<S(cA)>>),
-  GNil("Outer"), In1 >>
+  GNil("Outer"), In1,
+  GSlice("Outer", <<Outer(In1, GNil("Inner"), <<In2>>, <<GPtr("Inner", In3), GNil("Inner")>>, <<I(1)>>, <<>>, TRUE, S(cA)),
+                    Outer(In2, GPtr("Inner", In1), <<>>, <<GNil("Inner"), GPtr("Inner", In1), GNil("Inner")>>, <<>>, <<S(cB)>>, FALSE, S(cB))>>) >>
 (* J is total on the universe and yields JSON *)
 JTotal == \A i \in 1..Len(GoDocs) : IsJSON(J(GoDocs[i]))
 =============================================================================
